@@ -144,7 +144,13 @@ func genC17(w *simrt.Choices, tier string, avoid map[string]bool) Case {
 		}
 	}
 	nc := 1 + w.Choose(4)
+	if w.Choose(6) == 0 {
+		nc = 6 + w.Choose(5) // a burst of sessions: more Lua states in use at once than any pool keeps idle
+	}
 	tok, budget := 0, 8
+	if nc > 4 {
+		budget = nc + 2
+	}
 	for ci := 0; ci < nc; ci++ {
 		var txs []c17Txn
 		for i, n := 0, 1+w.Choose(3); i < n && budget > 0; i++ {
